@@ -247,6 +247,12 @@ func runSched(body func()) string {
 
 func helperMain(args []string) {
 	var o startOut
+	// identities a start generates come from a scripted random source chosen by
+	// the parent (scenario name + call number), so that a failure that depends
+	// on the generated identity reproduces
+	if l := os.Getenv("VERIF_C18_RND"); l != "" {
+		rnd.Install(rnd.New(1, "c18-helper-"+l))
+	}
 	switch args[0] {
 	case "start":
 		o = helperStart(args[1], args[2:])
@@ -263,6 +269,13 @@ func helperMain(args []string) {
 
 var self string
 
+// helperScope/helperCalls name the scripted random source of the next helper
+// process: set at the start of every scenario body.
+var (
+	helperScope string
+	helperCalls int
+)
+
 func runHelper(trace string, args ...string) (startOut, error) {
 	var cmd *exec.Cmd
 	full := append([]string{"helper"}, args...)
@@ -272,7 +285,8 @@ func runHelper(trace string, args ...string) (startOut, error) {
 	} else {
 		cmd = exec.Command(self, full...)
 	}
-	cmd.Env = append(os.Environ(), "GOMAXPROCS=1")
+	helperCalls++
+	cmd.Env = append(os.Environ(), "GOMAXPROCS=1", fmt.Sprintf("VERIF_C18_RND=%s#%d", helperScope, helperCalls))
 	out, err := cmd.CombinedOutput()
 	var o startOut
 	for _, l := range strings.Split(string(out), "\n") {
@@ -775,6 +789,7 @@ func historyScenario(hist []int, alpha []startKind, crash bool, thorough bool) m
 		name = "crash/" + strings.Join(names, ",")
 	}
 	return mc.Scenario{Name: name, Params: map[string]any{"history": names, "crash_enumeration": crash}, Weight: 1 + len(hist)*3, Run: func(c *mc.Ctx) {
+		helperScope, helperCalls = name, 0
 		dir := workDir("state")
 		defer os.RemoveAll(dir)
 		pre := workDir("pre")
@@ -856,6 +871,30 @@ func historyScenario(hist []int, alpha []startKind, crash bool, thorough bool) m
 				}
 				if !okCert {
 					fail(c, "crash-identity", "crash/identity-replaced/"+site+"/"+torn, "%s, process killed %s: the next start silently presents a different identity (cert %.16s..., persisted %.16s...)", what, cs.desc, ro.Cert, before.cert)
+					continue
+				}
+				// the same crash state, but the operator reconfigures first: a start
+				// with an explicit identity, then a plain one (whatever the crash
+				// left behind -- a stale temporary file, say -- must not spoil them)
+				if err := applyOps(pre, cdir, ops, cs.k, cs.torn); err != nil {
+					fail(c, "machinery", "apply", "%v", err)
+					return
+				}
+				expl := identityArgs(1, "R")
+				r1, e1 := runHelper("", append([]string{"start", cdir}, expl...)...)
+				r2, e2 := runHelper("", "start", cdir)
+				nCrash++
+				c.AddExecutions(1)
+				if e1 != nil || e2 != nil {
+					fail(c, "machinery", "helper", "recovery: %v %v", e1, e2)
+					return
+				}
+				if !r1.OK || !r2.OK {
+					fail(c, "crash-identity", "crash/later-start-fails/"+site+"/"+torn, "%s, process killed %s, then a start with an explicit identity (ok=%v %s) and a plain start (ok=%v %s): a start fails", what, cs.desc, r1.OK, r1.Err, r2.OK, r2.Err)
+					continue
+				}
+				if wantNode := strings.TrimPrefix(expl[0], "node-id="); r2.StateNode != wantNode || r1.Cert != r2.Cert {
+					fail(c, "crash-identity", "crash/explicit-after-crash-lost/"+site+"/"+torn, "%s, process killed %s: the explicit identity given afterwards (node id %.12s...) is not what the following plain start presents (%.12s...)", what, cs.desc, wantNode, r2.StateNode)
 				}
 			}
 		}
@@ -876,6 +915,7 @@ func max(a, b int) int {
 
 func ticketScenario(thorough bool) mc.Scenario {
 	return mc.Scenario{Name: "tickets/crash", Weight: 40, Run: func(c *mc.Ctx) {
+		helperScope, helperCalls = "tickets/crash", 0
 		dir := workDir("ss")
 		defer os.RemoveAll(dir)
 		pre := workDir("sspre")
